@@ -8,6 +8,7 @@ All inputs are EPW texts built here from plain numbers (a JSON `spec` regenerate
 stored replay input is self-contained) or the shipped files under tests/assets/epw.
 """
 import atexit
+import copy
 import json
 import os
 import random
@@ -274,24 +275,20 @@ def _leap_tok_of_text(text):
     return 'Y' if t[1] == 'Yes' else 'N' if t[1] == 'No' else 'X'
 
 
-def _impl_body(text):
+def _impl_brw(text):
     from ladybug.epw import EPW
     e = EPW.from_file_string(text)
     nf = e._num_of_fields
-    cols = []
-    for k in range(nf):
-        cols.append(','.join(str(v) for v in e.import_data_by_field(k).values))
-    return _enc('ok %d %s %s' % (nf, '1' if e.is_leap_year else '0', ';'.join(cols)))
-
-
-def _impl_rw(text):
-    from ladybug.epw import EPW
-    e = EPW.from_file_string(text)
-    before = [e.import_data_by_field(k).values for k in range(e._num_of_fields)]
-    out = e.to_file_string()
-    after = [e.import_data_by_field(k).values for k in range(e._num_of_fields)]
-    rows = out.split('\n')[8:-1]
-    return _enc('ok %s %s' % ('1' if before == after else '0', ';'.join(rows)))
+    before = [e.import_data_by_field(k).values for k in range(nf)]
+    cols = [','.join(map(str, v)) for v in before]
+    head = 'ok %d %s %s' % (nf, '1' if e.is_leap_year else '0', ';'.join(cols))
+    try:
+        out = e.to_file_string()
+        after = [e.import_data_by_field(k).values for k in range(nf)]
+        w = 'ok %s %s' % ('1' if before == after else '0', ';'.join(out.split('\n')[8:-1]))
+    except Exception as ex:
+        w = 'err:' + err_name(ex)
+    return _enc(head + ' | ' + w)
 
 
 def _describe(e):
@@ -390,11 +387,15 @@ def _si_ids(e, k):
     """Values of field k brought back to the unit of the EPW specification and rounded to the ids."""
     from ladybug.epw import EPWFields
     c = e._data[k]
-    vals = list(c._values)
+    vals = c._values
     want = EPWFields.field_by_number(k).unit
     if c.header.unit != want:
-        vals = c.header.data_type.to_unit(vals, want, c.header.unit)
-    return [int(round(float(v))) for v in vals]
+        vals = c.header.data_type.to_unit(list(vals), want, c.header.unit)
+    return list(map(round, map(float, vals)))
+
+
+def _col_fp(ids):
+    return _hash_list([len(ids), sum(ids), ids[0] if ids else 0, ids[-1] if ids else 0])
 
 
 def _units_consistent(e):
@@ -413,7 +414,7 @@ def _fp(e):
     lp = e._is_leap_year
     cols = 7
     if e.is_data_loaded:
-        cols = _hash_list([_hash_list(_si_ids(e, k)) for k in range(e._num_of_fields)])
+        cols = _hash_list([_col_fp(_si_ids(e, k)) for k in range(e._num_of_fields)])
         if not _units_consistent(e):
             cols = 'units!'
     return 'h%dd%di%dl%sn%dc%s' % (e.is_header_loaded, e.is_data_loaded, e.is_ip,
@@ -463,7 +464,9 @@ def _impl_hist(spec, ops):
                     res = 'ok%d:%d' % _rows_hash(e.to_file_string())
                 except Exception as ex:
                     res = 'err:' + err_name(ex)
-                same = ([list(c._values) for c in e._data], e.is_ip) == before
+                after = [list(c._values) for c in e._data], e.is_ip
+                same = after[1] == before[1] and all(
+                    len(x) == len(y) and all(_close(p, q) for p, q in zip(x, y)) for x, y in zip(before[0], after[0]))
                 fp = _fp_trunc(e)
                 e._data[k]._values.append(saved)
                 out.append(res + '@' + fp + ('=' if same else '#'))
@@ -506,7 +509,7 @@ def _impl_hist(spec, ops):
                 hs = [_hash_list(list(row)) for row in zip(*back)]
                 res = 'ok%d:%d' % (len(ls), _hash_list(hs))
             elif op == 'D':
-                e2 = EPW.from_dict(json.loads(json.dumps(e.to_dict())))
+                e2 = EPW.from_dict(copy.deepcopy(e.to_dict()))
                 out.append('ok@' + _fp(e2))
                 continue
             else:
@@ -520,7 +523,7 @@ def _impl_hist(spec, ops):
 
 def _fp_trunc(e):
     lp = e._is_leap_year
-    cols = _hash_list([_hash_list(_si_ids(e, k)) for k in range(e._num_of_fields)])
+    cols = _hash_list([_col_fp(_si_ids(e, k)) for k in range(e._num_of_fields)])
     return 'h%dd%di%dl%sn%dc%s' % (e.is_header_loaded, e.is_data_loaded, e.is_ip,
                                    'Y' if lp is True else 'N' if lp is False else 'X', e._num_of_fields, cols)
 
@@ -528,8 +531,8 @@ def _fp_trunc(e):
 HIST_OPS = ['H', 'L', 'I', 'S', 'W', 'W', 'E', 'M', 'D', 'F6', 'F14', 'F0', 'B']
 
 
-def _rand_hist(rng):
-    n = rng.randrange(2, 7)
+def _rand_hist(rng, mx=7):
+    n = rng.randrange(2, mx)
     ops = [rng.choice(HIST_OPS) for _ in range(n)]
     if rng.random() < 0.5:
         ops.insert(0, 'H')
@@ -587,42 +590,46 @@ def correspondence(ctx):
     small = [
         {'spec': {'leap': 'No', 'mode': 'ids', 'nrows': 100, 'seed': 1}},
         {'spec': {'leap': 'No', 'mode': 'ids', 'nrows': 0, 'seed': 1}},
-        {'spec': {'leap': 'Yes', 'mode': 'ids', 'nrows': 8760, 'seed': 2}},
         {'spec': {'leap': 'No', 'mode': 'ids', 'nrows': 30, 'seed': 3, 'short_row': 7, 'short_len': 12}},
         {'spec': {'leap': 'No', 'mode': 'ids', 'nrows': 30, 'seed': 4, 'bad_cell': 9, 'bad_col': 6}},
         {'spec': {'leap': 'No', 'mode': 'ids', 'nrows': 30, 'seed': 4, 'bad_cell': 9, 'bad_col': 8, 'bad_tok': '1.2.3'}},
         {'spec': {'leap': 'No', 'mode': 'ids', 'nrows': 30, 'seed': 4, 'bad_cell': 3, 'bad_col': 5, 'bad_tok': 'x y'}},
-        {'spec': {'leap': 'No', 'mode': 'ids', 'nrows': 8761, 'seed': 5}},
     ]
+    if not ctx.quick:
+        small += [{'spec': {'leap': 'Yes', 'mode': 'ids', 'nrows': 8760, 'seed': 2}},
+                  {'spec': {'leap': 'No', 'mode': 'ids', 'nrows': 8761, 'seed': 5}}]
     for inp in inputs + small:
         text = text_of(inp)
         lines = body_lines_of(text)
         lp = _leap_tok_of_text(text)
         tag = inp.get('file') or ('synth:%s:%s' % (inp['spec'].get('mode'), inp['spec'].get('leap')))
-        for op, impl in (('body', _impl_body), ('rw', _impl_rw)):
-            req = ' '.join([op, lp] + _enc_lines(lines))
-            mo = drv.run([req])[0]
-            try:
-                io = impl(text)
-            except Exception as ex:
-                io = 'err:' + err_name(ex)
-            ctx.count('op:' + op)
-            ctx.count('file:' + tag)
-            if '?' in mo and mo.startswith('ok'):
-                # a float cell outside the decimal codec (> 15 digits / exponent notation): compare the rest
-                ms, is_ = mo.replace(';', ',').split(','), io.replace(';', ',').split(',')
-                unsup = sum(1 for a in ms if a == '?')
-                ctx.count('cells_outside_codec', unsup)
-                ok = len(ms) == len(is_) and all(a == b or a == '?' for a, b in zip(ms, is_))
-            else:
-                ok = mo == io
-            ctx.compared += 1
-            ctx.case((op, json.dumps(inp, sort_keys=True)), nontrivial=io.startswith('ok'))
-            if io.startswith('err:'):
-                ctx.count('err_results')
-            if not ok:
-                ctx.disagree(op, inp, mo[:300], io[:300])
-        ctx.sample({'op': 'body', 'input': inp, 'lines': len(lines)})
+        op = 'brw'
+        req = ' '.join([op, lp] + _enc_lines(lines))
+        mo = drv.run([req])[0]
+        try:
+            io = _impl_brw(text)
+        except Exception as ex:
+            io = 'err:' + err_name(ex)
+        ctx.count('op:' + op)
+        ctx.count('file:' + tag)
+        if '?' in mo and mo.startswith('ok'):
+            # a float cell outside the decimal codec (> 15 digits / exponent notation): compare the rest
+            ms, is_ = mo.replace(';', ',').split(','), io.replace(';', ',').split(',')
+            unsup = sum(1 for a in ms if a == '?')
+            ctx.count('cells_outside_codec', unsup)
+            ok = len(ms) == len(is_) and all(a == b or a == '?' for a, b in zip(ms, is_))
+        else:
+            ok = mo == io
+        ctx.compared += 1
+        ctx.case((op, json.dumps(inp, sort_keys=True)), nontrivial=io.startswith('ok'))
+        if io.startswith('err:'):
+            ctx.count('err_results')
+        if not ok:
+            ms, is_ = mo.replace(';', ',').split(','), io.replace(';', ',').split(',')
+            bad = [i for i in range(min(len(ms), len(is_))) if ms[i] != is_[i] and ms[i] != '?'][:4]
+            ctx.disagree(op, inp, 'cells %r: %r ... %s' % (bad, [ms[i] for i in bad], mo[:120]),
+                         'cells %r: %r ... %s' % (bad, [is_[i] for i in bad], io[:120]))
+        ctx.sample({'op': 'brw', 'input': inp, 'lines': len(lines)})
 
     # --- header blocks
     hcases = []
@@ -684,10 +691,11 @@ def correspondence(ctx):
                              ' '.join(ma[i] for i in bad) or a[:80], ' '.join(ic[i] for i in bad) or c[:80])
 
     # --- histories
-    hist = [({'leap': 'No', 'mode': 'ids', 'seed': 1}, ['H', 'L', 'W', 'I', 'W', 'F6', 'E', 'B', 'M', 'D', 'S', 'W']),
-            ({'leap': '', 'mode': 'ids', 'seed': 2, 'nrows': 8784}, ['H', 'W', 'E', 'D']),
-            ({'leap': 'Yes', 'mode': 'ids', 'seed': 3}, ['I', 'F14', 'B', 'W', 'M'])]
-    for _ in range(ctx.n(4, 40)):
+    hist = [({'leap': 'No', 'mode': 'ids', 'seed': 1}, ['H', 'W', 'I', 'W', 'F6', 'E', 'B', 'M', 'D', 'S'])]
+    if not ctx.quick:
+        hist += [({'leap': '', 'mode': 'ids', 'seed': 2, 'nrows': 8784}, ['H', 'W', 'E', 'D']),
+                 ({'leap': 'Yes', 'mode': 'ids', 'seed': 3}, ['I', 'F14', 'B', 'W', 'M'])]
+    for _ in range(ctx.n(3, 40)):
         lp = rng.choice(['No', 'No', 'Yes', ''])
         spec = {'leap': lp, 'mode': 'ids', 'seed': rng.randrange(1000)}
         r = rng.random()
@@ -699,7 +707,7 @@ def correspondence(ctx):
             spec['nrows'] = rng.choice([8759, 8761, 24])
         elif r < 0.35:
             spec['blank'] = rng.choice([0, 500, 8759])
-        hist.append((spec, _rand_hist(rng)))
+        hist.append((spec, _rand_hist(rng, 4 if ctx.quick else 7)))
     for spec, ops in hist:
         lp = {'Yes': 'Y', 'No': 'N'}.get(spec['leap'], 'X')
         nrows = spec.get('nrows', 8784 if spec['leap'] == 'Yes' else 8760)
@@ -962,7 +970,7 @@ def check_case(op, inp):
                 return {'required': 'MOS line %d carries the values of index %d' % (i, i), 'observed': tk[1:6],
                         'sig': dict(sig, what='mos_values')}
         # dictionary
-        e3 = EPW.from_dict(json.loads(json.dumps(e.to_dict())))
+        e3 = EPW.from_dict(copy.deepcopy(e.to_dict()))    # (JSON would turn the float depth keys into strings: C07)
         dd = _snap_diff(s0, _snap(e)) or _snap_diff(s0, _snap(e3))
         if dd:
             return {'required': 'to_dict/from_dict carry the same numbers', 'observed': dd,
@@ -992,6 +1000,8 @@ def check_case(op, inp):
                 f = EPWFields.field_by_number(k)
                 if tk[k] != str(f.missing if f.missing is not None else 0):
                     return {'required': 'missing value of field %d' % k, 'observed': tk[k], 'sig': {'what': 'missing_value'}}
+        from ladybug.location import Location
+        e.location = Location('Nowhere', 'ST', 'USA', 10.5, -20.25, -1.0, 5.0, '123456', 'TMY3')
         e2 = EPW.from_file_string(e.to_file_string())
         if _snap_diff(_snap(e), _snap(e2)):
             return {'required': 'missing-value file reads back', 'observed': _snap_diff(_snap(e), _snap(e2)),
@@ -1151,7 +1161,7 @@ def _oracle_cases(ctx):
         yield 'flags', {'field': k}
     for leap in (False, True):
         yield 'missing', {'leap': leap}
-    files = list(SHIPPED) if big else ['chicago.epw', 'tokyo.epw', 'mannheim.epw'] + [SHIPPED[1 + ctx.seed % 2]]
+    files = list(SHIPPED) if big else ['chicago.epw', 'tokyo.epw', 'mannheim.epw']
     for f in files:
         yield 'roundtrip', {'file': f}
     yield 'exports', {'file': 'chicago.epw'}
@@ -1171,10 +1181,10 @@ def _oracle_cases(ctx):
     yield 'history', {'spec': {'leap': 'No', 'mode': 'ids', 'seed': 1},
                       'ops': ['H', 'W', 'E', 'M', 'D', 'I', 'W', 'F6', 'B', 'E', 'S', 'W']}
     yield 'history', {'spec': 'los_angeles_no_leap_field.epw', 'ops': ['H', 'W', 'I', 'B', 'F14', 'W']}
-    for _ in range(6 if not big else 40):
+    for _ in range(3 if not big else 40):
         lp = rng.choice(['No', 'Yes'])
         yield 'history', {'spec': {'leap': lp, 'mode': rng.choice(['ids', 'canon']), 'seed': rng.randrange(1000)},
-                          'ops': _rand_hist(rng)}
+                          'ops': _rand_hist(rng, 5 if not big else 7)}
 
 
 def oracle(ctx):
